@@ -24,8 +24,9 @@ def sh(cmd, cwd=None, env=None, timeout=3600):
 def main():
     prop = sys.argv[1]
     which = sys.argv[2:] or ["a", "b"]
-    wt = f"/tmp/wt/{prop}"
-    out = f"/tmp/wt/{prop}_out"
+    root = os.environ.get("SEED_WT_ROOT", "/tmp/wt")
+    wt = f"{root}/{prop}"
+    out = f"{root}/{prop}_out"
     env = dict(os.environ, PYTHONPATH=f"{wt}/src")
     for x in which:
         d = os.path.join(out, x)
